@@ -136,6 +136,64 @@ def blob_read_claims(s, I):
     return out
 
 
+# ------------------------------------------------------------------------------------------------ C09: memory of one blob extraction
+BIG_LO, BIG_HI = 1 << 28, 1 << 32          # "obviously unbounded" window that the native replay can observe through VmPeak
+
+
+def blob_read_mem_scenario(max_pages=2):
+    """Blob::read with ANY descriptor (offset, length: any u64) over any device of <= max_pages pages"""
+    def scen(I):
+        init_interp(I)
+        s = mk_abs_reader(I, max_pages=max_pages)
+        I.last_state = s
+        s.boff, s.blen = fresh("blob_off"), fresh("blob_len")
+        fo, fl = blob_fields(I)
+        fields = [None, None]
+        fields[fo], fields[fl] = s.boff, s.blen
+        s.holder["blob"] = Agg("struct", fields, "Blob")
+        s.holder["sink"] = SinkDev()
+        s.res = I.call_fn(I.methods[("Blob", None, "read")], [Ref(Loc(s.holder, "blob")), s.ref, Ref(Loc(s.holder, "sink"))])
+        s.sink = s.holder["sink"]
+        s.allocs = list(I.alloc_events)
+        return s
+    return scen
+
+
+def blob_read_mem_claims(s, I):
+    out = []
+    cap = s.npages * U64(PAGE) + U64(65536)
+    for k, a in enumerate(s.allocs):
+        out.append(("allocation %d is bounded by the device size + 64 KiB, whatever length the descriptor declares" % k, z3.ULE(a, cap)))
+        out.append(("allocation %d is not of the order of a declared length (256 MiB .. 4 GiB) on a device of a few pages" % k, z3.Not(z3.And(z3.UGE(a, U64(BIG_LO)), z3.ULE(a, U64(BIG_HI))))))
+    if s.res.vname == "Ok":
+        out.append(("Ok only for a blob that lies inside the file", z3.ULE(logical(s.boff) + U64(16) + s.blen, s.npages * U64(PAYLOAD))))
+        out.append(("delivered length = descriptor length", s.sink.content.length == s.blen))
+    return out
+
+
+def _brm_rebuild(I, pre, kv):
+    s = _br_rebuild(I, pre, kv)
+    grown = int(kv.get("vmpeak_kb", "0")) * 1024
+    # natively only an address-space growth far above anything a few pages justify is attributed to the call
+    s.allocs = [U64(grown)] if grown >= (BIG_LO // 2) else []
+    if "memory allocation of" in kv.get("__raw__", ""):
+        s.allocs = [U64(BIG_LO)]
+    return s
+
+
+def _brm_op(pre):
+    vm = ("fn vm_peak_kb() -> u64 { std::fs::read_to_string(\"/proc/self/status\").ok().and_then(|s| s.lines().find(|l| l.starts_with(\"VmPeak:\"))"
+          ".and_then(|l| l.split_whitespace().nth(1).and_then(|x| x.parse::<u64>().ok()))).unwrap_or(0) } ")
+    return (vm + "let blob = crate::blob::Blob::new(%d, %d); let mut sink: Vec<u8> = Vec::new(); let before = vm_peak_kb(); "
+            "match blob.read(&mut r, &mut sink) { Ok(m) => println!(\"VR res=ok:{}\", m), Err(_) => println!(\"VR res=err\") } "
+            "println!(\"VR vmpeak_kb={}\", vm_peak_kb().saturating_sub(before)); println!(\"VR sink={}\", vhex(&sink));" % (pre["boff"], pre["blen"]))
+
+
+def mem_scenarios(tier="quick"):
+    rp = AbsReaderReplay(_brm_op, _br_extra, _brm_rebuild)
+    return [Scenario("Blob::read any descriptor (any length) over a device of <= 2 pages: memory bound", blob_read_mem_scenario(2), blob_read_mem_claims, max_paths=800, replayer=rp)]
+
+
 def _br_extra(model, s):
     return dict(boff=mval(model, s.boff), blen=mval(model, s.blen))
 
